@@ -267,7 +267,13 @@ def _benign_act(rng, cfg, depth, steps):
         inner = [_benign_act(rng, cfg, 1, steps) for _ in range(rng.randint(1, 3))]
         if rng.random() < 0.35:
             inner.insert(0, {"a": "gate"})
-        return {"a": "thread", "script": inner}
+        # TODO(after the D11 repair is merged): also hold a thread between two of its own acts
+        #   if rng.random() < 0.3: inner.insert(rng.randint(1, len(inner)), {"a": "gate"})
+        act = {"a": "thread", "script": inner}
+        if rng.random() < 0.4:
+            # an explicit thread name, the same in several tests (names say nothing about identity)
+            act["name"] = rng.choice(["worker", "poller"])
+        return act
     return {"a": "log", "level": "info"}
 
 
@@ -361,16 +367,26 @@ def gen_project(rng, profile="basic"):
         return {"name": name, "rank": 0, "disabled": disabled, "deps": [], "fixtures": fxs,
                 "script": gen_script(rng, cfg, cfg["p_fail_body"], 0.85)}
 
-    def mk_suite(depth):
+    used_suite_names = []
+
+    def mk_suite(depth, siblings=()):
         name = "s%d" % ctr["s"]
         ctr["s"] += 1
+        # names only have to be unique among siblings: reuse a name met elsewhere in the tree (same-named suites
+        # under different parents, a suite named like its parent) now and then
+        cands = [n for n in used_suite_names if n not in siblings]
+        if cands and rng.random() < 0.22:
+            name = rng.choice(cands)
+        used_suite_names.append(name)
         nt = min(budget[0], rng.choice([1, 1, 2, 2, 3, 4]))
         if rng.random() < cfg.get("p_empty", 0.06):
             nt = 0          # a suite left without tests (D1 lives here: keep it present but not dominant)
         budget[0] -= nt
         tests = [mk_test() for _ in range(nt)]
         nsub = 0 if depth >= 3 or budget[0] <= 0 else rng.choice([0, 0, 0, 1, 1, 2])
-        subs = [mk_suite(depth + 1) for _ in range(nsub)]
+        subs = []
+        for _ in range(nsub):
+            subs.append(mk_suite(depth + 1, [x["name"] for x in subs]))
         mode = "ties" if rng.random() < cfg["p_ties"] else ("shuffled" if rng.random() < 0.12 else "seq")
         for group in (tests, subs):
             ranks = list(range(1, len(group) + 1))
@@ -399,9 +415,9 @@ def gen_project(rng, profile="basic"):
     suites = []
     for _ in range(rng.choice([1, 1, 2, 2, 3])):
         if budget[0] > 0 or not suites:
-            suites.append(mk_suite(1))
+            suites.append(mk_suite(1, [x["name"] for x in suites] + list(used_suite_names)))
     if rng.random() < 0.04:
-        suites.append(dict(mk_suite(3), tests=[], suites=[]))      # a top-level suite without tests
+        suites.append(dict(mk_suite(3, list(used_suite_names)), tests=[], suites=[]))      # a top-level suite without tests
     mode = "ties" if rng.random() < cfg["p_ties"] else "seq"
     for i, s in enumerate(suites):
         s["rank"] = 0 if mode == "ties" else i + 1
@@ -486,6 +502,8 @@ def features(project):
         for a in sc:
             if a["a"] == "thread":
                 f.add("act-thread")
+                if a.get("name"):
+                    f.add("act-thread-named")
                 for b in a["script"]:
                     if act_fails(b):
                         f.add("fail-in-thread")
@@ -494,6 +512,9 @@ def features(project):
                 f.add("fail:%s@%s" % (kind, where))
             if a["a"] in ("attach", "url", "step", "gate"):
                 f.add("act-" + a["a"])
+    names = [s["name"] for _, s, _ in iter_suites(project)]
+    if len(set(names)) < len(names):
+        f.add("suite-name-reused")
     if project["force_disabled"]:
         f.add("force_disabled")
     if project["stop_on_failure"]:
